@@ -414,6 +414,9 @@ class Tracer:
                 elemv = ('elem', )
             elif it[0] in ('seq', 'seqf'):
                 elemv = it[1]
+            elif it[0] == 'text' and any(p_[0] == 'xform' for p_ in it[1]):
+                # the pieces of a rendered text that was taken apart
+                elemv = it
             else:
                 self.err(e, 'comprehension over something that is not the '
                          'expression list')
